@@ -225,7 +225,19 @@ def ca2(repo: Repo) -> RuleResult:
             sws = [s for s in walk(f) if s.get("k") == "switch" and txt(s.tag) == subject]
             res.inst(part="c", function=fname, variant=vname, domain=dom, switches=len(sws))
             if len(sws) != 1:
-                res.unsure(f"CA2[{vname}]: {fname}: switch over `{subject}` not found (found {len(sws)})")
+                # no switch: fold the dispatch (if chains, precomputed booleans) per flag value
+                for cls in sorted(domains[dom]):
+                    fl = CLASS_FLAG[cls]
+                    reached, undecided = reach_calls(f.body.stmts, {"$" + subject: flags[fl]}, c.funcs)
+                    want = _handler(kind, cls)
+                    res.inst(part="c", function=fname, variant=vname, flag=fl, reached=sorted(reached))
+                    if want and not any(any(w.rstrip("(").lstrip(".") in r for r in reached) for w in want):
+                        if undecided:
+                            res.unsure(f"CA2[{vname}]: {fname}: dispatch for {fl} cannot be folded")
+                        else:
+                            fd = Finding("CA2", C_RT, f.line, fname, f"{subject} == {fl}", f"with {subject} == {fl} ({cls}) the function reaches {sorted(reached) or 'no handler'}, expected a call of {want}: the value is skipped or handled by the wrong routine", witness=f"a {cls} in that position (e.g. an array of enums in JSON prints `[,,]`)", tag=f"c:{fname}:{fl}:fold")
+                            fd.part = "c"
+                            res.bad(fd)
                 continue
             sw = sws[0]
             covered: Dict[str, Node] = {}
@@ -263,6 +275,9 @@ def fold_c(e: Node, env: Dict[str, int], funcs: Dict[str, Node], depth: int = 0)
     k = e.k
     if k == "int":
         return e.v
+    key = "$" + txt(e)
+    if key in env:
+        return env[key]
     if k == "id":
         return env.get(e.name)
     if k in ("paren", "conv"):
@@ -307,6 +322,66 @@ def fold_c(e: Node, env: Dict[str, int], funcs: Dict[str, Node], depth: int = 0)
             return None
         return fold_c(e.a if c else e.b, env, funcs, depth)
     return None
+
+
+HANDLER_CALLS = ("BpEndecodeBaseType", "BpEndecodeInt", "BpJsonFormatBaseType", "processor", "json_formatter")
+
+
+def reach_calls(stmts: List[Node], env: Dict[str, int], funcs: Dict[str, Node]) -> Tuple[Set[str], bool]:
+    """Handler calls reachable when the dispatch conditions are folded under env
+    (conditions that do not fold - NULL checks, data - are followed both ways)."""
+    reached: Set[str] = set()
+    undecided = [False]
+    env = dict(env)
+    fptr: Dict[str, str] = {}
+
+    def note_calls(n: Any) -> None:
+        for x in calls(n):
+            nm = go_src(x.f)
+            last = nm.split(".")[-1]
+            last = fptr.get(last, last)
+            if last in HANDLER_CALLS or nm in HANDLER_CALLS:
+                reached.add(last if last in HANDLER_CALLS else nm)
+
+    def run(ss: List[Node]) -> None:
+        for st in ss:
+            k = st.k
+            if k == "assign" and st.lhs[0].k == "id" and st.op in (":=", "="):
+                v = fold_c(st.rhs[0], env, funcs)
+                if v is not None:
+                    env[st.lhs[0].name] = v
+                else:
+                    env.pop(st.lhs[0].name, None)
+                    last = go_src(strip(st.rhs[0])).split(".")[-1]
+                    if last in ("processor", "json_formatter"):
+                        fptr[st.lhs[0].name] = last
+                note_calls(st.rhs[0])
+            elif k == "if":
+                v = fold_c(st.cond, env, funcs)
+                if v is None or v:
+                    run(st.body.stmts)
+                if (v is None or not v) and st.orelse is not None:
+                    run([st.orelse] if st.orelse.k == "if" else st.orelse.stmts)
+            elif k == "switch":
+                v = fold_c(st.tag, env, funcs)
+                if v is None:
+                    undecided[0] = True
+                    for cs in st.cases:
+                        run(cs.body)
+                else:
+                    hit = [cs for cs in st.cases if any(fold_c(x, env, funcs) == v for x in (cs.vals or []))]
+                    dflt = [cs for cs in st.cases if cs.get("default")]
+                    for cs in (hit or dflt):
+                        run(cs.body)
+            elif k == "for":
+                run(st.body.stmts)
+            elif k == "block":
+                run(st.stmts)
+            else:
+                note_calls(st)
+
+    run(stmts)
+    return reached, undecided[0]
 
 
 def _handler(kind: str, cls: str) -> Optional[List[str]]:
